@@ -327,28 +327,98 @@ def coq_eval_one(header, term):
 
 
 # ---------------------------------------------------------------- impl side
+ANCHOR_COVERAGE = {}      # file -> dict(statements=set, executed=set); union over every run_impl of this check
+
+
+def anchor_files(module):
+    """the files property <module> is anchored in (properties.jsonl), as absolute paths under /repo"""
+    pid = module[:3].upper()
+    for line in open(os.path.join(VERIF, "properties.jsonl")):
+        d = json.loads(line)
+        if d["id"] == pid:
+            return [os.path.join(REPO, f) for f in d["anchors"]["files"] if f.endswith(".py")]
+    return []
+
+
 def run_impl(module, payload, timeout=1800):
     """run tools/props/<module>.py:impl_main(payload) inside a fresh interpreter that
-    sees /repo's current working tree; returns the JSON result"""
+    sees /repo's current working tree; returns the JSON result.  The run is traced (coverage.py, statement
+    level, main process and its threads) over the files the property is anchored in, so that the evidence says
+    which anchored statements the correspondence and the oracle never reached (VERIF_NO_COVERAGE=1 switches
+    the tracing off; a tracing failure never changes a verdict)."""
     work = os.path.join(VERIF, "work")
     os.makedirs(work, exist_ok=True)
     tag = "%s_%d" % (module, os.getpid())
     fin, fout = os.path.join(work, tag + ".in.json"), os.path.join(work, tag + ".out.json")
+    fcov = os.path.join(work, tag + ".cov.json")
     json.dump(payload, open(fin, "w"))
-    if os.path.exists(fout):
-        os.remove(fout)
-    code = ("import sys, json; sys.path.insert(0, %r); import importlib; "
-            "m = importlib.import_module('props.%s'); "
-            "r = m.impl_main(json.load(open(%r))); json.dump(r, open(%r, 'w'))"
-            % (os.path.join(VERIF, "tools"), module, fin, fout))
+    for f in (fout, fcov):
+        if os.path.exists(f):
+            os.remove(f)
+    anchors = [] if os.environ.get("VERIF_NO_COVERAGE") else anchor_files(module)
+    code = ("import sys, json; sys.path.insert(0, %r); import importlib\n"
+            "anchors = %r; cov = None\n"
+            "try:\n"
+            "    import coverage\n"
+            "    cov = coverage.Coverage(data_file=None, include=anchors, config_file=False) if anchors else None\n"
+            "    cov and cov.start()\n"
+            "except Exception:\n"
+            "    cov = None\n"
+            "m = importlib.import_module('props.%s')\n"
+            "r = m.impl_main(json.load(open(%r))); json.dump(r, open(%r, 'w'))\n"
+            "if cov:\n"
+            "    try:\n"
+            "        cov.stop(); out = {}\n"
+            "        for f in anchors:\n"
+            "            a = cov.analysis2(f); out[f] = [sorted(a[1]), sorted(a[3])]\n"
+            "        json.dump(out, open(%r, 'w'))\n"
+            "    except Exception as e:\n"
+            "        json.dump({'error': repr(e)}, open(%r, 'w'))\n"
+            % (os.path.join(VERIF, "tools"), anchors, module, fin, fout, fcov, fcov))
     rc, out, wall = sh([PY, "-c", code], timeout=timeout, env=impl_env(), cwd=work)
     res = None
     if rc == 0 and os.path.exists(fout):
         res = json.load(open(fout))
-    for f in (fin, fout):
+    if os.path.exists(fcov):
+        try:
+            for f, pair in json.load(open(fcov)).items():
+                if f == "error":
+                    continue
+                stmts, missing = pair
+                c = ANCHOR_COVERAGE.setdefault(os.path.relpath(f, REPO), dict(statements=set(), executed=set()))
+                c["statements"] |= set(stmts)
+                c["executed"] |= set(stmts) - set(missing)
+        except Exception:
+            pass
+    for f in (fin, fout, fcov):
         if os.path.exists(f):
             os.remove(f)
     return rc, res, out, wall
+
+
+def ranges(xs):
+    """[1,2,3,7,9,10] -> '1-3,7,9-10'"""
+    out, xs = [], sorted(xs)
+    i = 0
+    while i < len(xs):
+        j = i
+        while j + 1 < len(xs) and xs[j + 1] == xs[j] + 1:
+            j += 1
+        out.append(str(xs[i]) if i == j else "%d-%d" % (xs[i], xs[j]))
+        i = j + 1
+    return ",".join(out)
+
+
+def anchor_coverage_summary():
+    files, tot, hit = {}, 0, 0
+    for f, c in sorted(ANCHOR_COVERAGE.items()):
+        n, e = len(c["statements"]), len(c["executed"] & c["statements"])
+        tot, hit = tot + n, hit + e
+        files[f] = dict(statements=n, executed=e, never_executed_lines=ranges(c["statements"] - c["executed"]))
+    return dict(what="statement coverage (coverage.py, main process and threads) of the files the property is anchored in, "
+                     "union over every implementation run of this check; statements never executed were reached by "
+                     "neither the correspondence nor the oracle",
+                statements=tot, executed=hit, files=files)
 
 
 # ---------------------------------------------------------------- findings / evidence
@@ -405,6 +475,8 @@ class Report:
             "hand-written correspondence harness tools/props/%s.py and tools/vlib.py" % self.pid.lower(),
         ]
         cov["notes"] = self.notes
+        if ANCHOR_COVERAGE:
+            cov["anchored_code_coverage"] = anchor_coverage_summary()
         rc = 0
         for k in self.known:
             print("KNOWN-FINDING: property=%s %s" % (self.pid, k))
